@@ -484,6 +484,15 @@ Fixpoint parse_members (md : mdesc) (sms : list smember) (m : msg) : res msg :=
 End Parse.
 
 (* ---------- protobuf_c_message_unpack *)
+
+(* The ScannedMember slab table of protobuf_c_message_unpack has 23 entries
+   (slabs of 16, 32, 64, ... members): room for 16 * (2^23 - 1) members of
+   one message; one more is "too many fields". *)
+Definition max_members : Z := 134217712.
+(* Every scanned member takes at least two input bytes, so an input of at
+   most 2 * max_members + 1 bytes can never trip that limit. *)
+Definition max_input : Z := 268435425.
+
 Section Unpack.
 Variable E : env.
 
@@ -501,6 +510,8 @@ Fixpoint unpack (fuel : nat) (d : nat) (data : list Z) : res msg :=
                         st_bitmap := repeat false (length (md_fields md));
                         st_members := []; st_slots := m_slots m0; st_nunk := 0 |} in
           do st <- scan_loop (S (length data)) md st0;
+          (* "too many fields": the ScannedMember slab table has 23 entries, 16 * (2^23 - 1) members in all *)
+          if max_members <? zlen (st_members st) then Err EFail else
           do slots <- alloc_slots (md_fields md) (st_bitmap st) (st_slots st);
           parse_members E (unpack k) md (rev (st_members st)) (Msg d slots (m_unions m0) [])
       end
